@@ -37,10 +37,10 @@ typedef DiscretisedDensity<3, float> Target;
 typedef PoissonLogLikelihoodWithLinearModelForMeanAndProjData<Target> Obj;
 
 // calibrated tolerances (see props.d/C05.py; observed maxima are recorded as stats().maxi)
-const double TOL_REF = 1e-4;   // quantity vs double-precision reference, relative to the magnitude of the object
+const double TOL_REF = 2e-5;   // quantity vs double-precision reference, relative to the magnitude of the object
 const double TOL_SAME = 1e-6;  // same request, other history / other object
 const double TOL_PRIOR = 1e-5; // penalised = unpenalised - prior share
-const double TOL_SUM = 2e-5;   // sum over subsets vs one-subset object (different float summation order)
+const double TOL_SUM = 1e-5;   // sum over subsets vs one-subset object (different float summation order)
 
 bool
 no_exclude()
@@ -139,6 +139,8 @@ struct Ctx
   std::vector<int> owner;     // subset that processes the bin, -1 if |segment| > max_segment_num_to_process
   std::vector<int> vgid;      // viewgram (tof, segment, view) of the bin
   int num_vg = 0;
+  std::string unowned;                // a (segment, view) within max_segment_num_to_process that belongs to no subset
+  bool sens_subsets_mismatch = false; // F5: the non-TOF sensitivity projector forms other subsets than the TOF projectors
   std::vector<double> n0; // per bin of P0 (non-TOF sensitivity)
   std::vector<char> z0;
   std::vector<int> owner0;
@@ -521,6 +523,24 @@ build_ctx(const json& c, Ctx& x)
             owner_vs[std::make_pair(r.segment_num(), r.view_num())] = S;
         }
   }
+  if (x.have_P0 && x.N > 1)
+    { // which views does the library's non-TOF sensitivity back projector (a clone set up with the non-TOF
+      // ProjDataInfo, hence with its view/segment symmetries switched on again) put into each subset?
+      ProjectorByBinPairUsingProjMatrixByBin pair0(matrix_under_test(x));
+      shared_ptr<ProjDataInfo> pdi0 = x.pdi->create_non_tof_clone();
+      if (pair0.set_up(pdi0, x.proto) != Succeeded::yes)
+        error("projector pair set_up failed");
+      const DataSymmetriesForViewSegmentNumbers& sym0 = *pair0.get_symmetries_used();
+      std::vector<ViewSegmentNumbers> rel;
+      for (int S = 0; S < x.N; ++S)
+        for (const ViewSegmentNumbers& vs : detail::find_basic_vs_nums_in_subset(*pdi0, sym0, -x.ms, x.ms, S, x.N))
+          {
+            sym0.get_related_view_segment_numbers(rel, vs);
+            for (const ViewSegmentNumbers& r : rel)
+              if (owner_vs[std::make_pair(r.segment_num(), r.view_num())] != S)
+                x.sens_subsets_mismatch = true;
+          }
+    }
   auto fill_geom = [&](const vp::ExplicitP& P, std::vector<char>& z, std::vector<int>& owner) {
     z.assign(std::size_t(P.nbins()), 0);
     owner.assign(std::size_t(P.nbins()), -1);
@@ -534,7 +554,10 @@ build_ctx(const json& c, Ctx& x)
         if (std::abs(bin.segment_num()) <= x.ms)
           {
             if (it == owner_vs.end())
-              error("view/segment not in any subset (C06 matter)");
+              { // a view/segment inside the processed range that no subset contains: reported as a failure by check()
+                x.unowned = cat("segment ", bin.segment_num(), " view ", bin.view_num());
+                continue;
+              }
             owner[b] = it->second;
           }
       }
@@ -871,7 +894,11 @@ run_op(Obj& o, const Ctx& x, RefCache& rc, const int kind, const int S, Results&
           ok = o.add_multiplication_with_approximate_Hessian_without_penalty(*out, *x.v_im);
         VF_CHECK(ok == Succeeded::yes, who, ": ", kind_name[kind], " returned Succeeded::no");
         got.im = P.image_to_vec(*out);
-        if (has_prior)
+        // F4 (work/notes/C05_findings.md): the penalised Hessian forms hand 'output' instead of 'input' to the prior;
+        // excluded by construction unless VERIF_NO_EXCLUDE is set
+        if (has_prior && !no_exclude())
+          stats().count("excluded request: penalised Hessian forms (F4)");
+        if (has_prior && no_exclude())
           {
             shared_ptr<Target> out2(x.out0_im->clone());
             if (kind == HESS_S)
@@ -915,8 +942,24 @@ run_op(Obj& o, const Ctx& x, RefCache& rc, const int kind, const int S, Results&
           if (!(d <= TOL_REF * ref.scale + 1e-30))
             {
               const std::size_t k = argmax_abs_diff(got.im, ref.im);
+              std::string hyp;
+              if (x.tof && bk == HESS_S)
+                { // triage aid for L5: does the result equal "every TOF bin is processed as TOF bin 0"?
+                  Ctx h = x;
+                  for (std::size_t b = 0; b < h.owner.size(); ++b)
+                    if (h.P.bins[b].timing_pos_num() != 0)
+                      h.owner[b] = -1;
+                  Thr t2;
+                  std::vector<double> sc2;
+                  std::vector<double> hv = ref_hess(h, S, true, t2, sc2);
+                  const int ntof = x.pdi->get_num_tof_poss();
+                  for (std::size_t i = 0; i < hv.size(); ++i)
+                    hv[i] = x.out0[i] + ntof * hv[i];
+                  hyp = cat(" [hypothesis 'all ", ntof, " TOF bins processed as TOF bin 0' gives ", hv[k], " at that voxel, max |difference| ",
+                            max_abs_diff(got.im, hv), "]");
+                }
               return Result::fail(cat(tag, ": voxel ", k, " is ", got.im[k], " but the definition gives ", ref.im[k], " (max |difference| ", d,
-                                      ", magnitude ", ref.scale, ", rel err ", err, ")"));
+                                      ", magnitude ", ref.scale, ", rel err ", err, ")", hyp));
             }
         }
     }
@@ -963,8 +1006,25 @@ run_op(Obj& o, const Ctx& x, RefCache& rc, const int kind, const int S, Results&
           if (!(d <= TOL_PRIOR * sc))
             {
               const std::size_t k = argmax_abs_diff(pen.im, want);
+              std::string hyp;
+              if (is_hessian(kind))
+                { // triage aid for F4: is the prior's Hessian applied to the accumulated OUTPUT instead of the input?
+                  shared_ptr<Target> gi = vec_to_image(x, got.im);
+                  shared_ptr<Target> p2(x.proto->get_empty_copy());
+                  p2->fill(0.F);
+                  if (bk == HESS_S)
+                    prior.accumulate_Hessian_times_input(*p2, *x.lam_im, *gi);
+                  else
+                    prior.add_multiplication_with_approximate_Hessian(*p2, *gi);
+                  const std::vector<double> pr2 = P.image_to_vec(*p2);
+                  std::vector<double> want2(got.im.size());
+                  for (std::size_t i = 0; i < want2.size(); ++i)
+                    want2[i] = got.im[i] - share * pr2[i];
+                  hyp = cat(" [hypothesis 'prior Hessian applied to the unpenalised output instead of the input': max |difference| ",
+                            max_abs_diff(pen.im, want2), "]");
+                }
               return Result::fail(cat(tag, ": penalised form at voxel ", k, " is ", pen.im[k], " but unpenalised - ", share, " * prior share = ", got.im[k],
-                                      " - ", share * pr[k], " = ", want[k], " (max |difference| ", d, ", magnitude ", sc, ")"));
+                                      " - ", share * pr[k], " = ", want[k], " (max |difference| ", d, ", magnitude ", sc, ")", hyp));
             }
         }
     }
@@ -996,6 +1056,16 @@ excluded_op(const Ctx& x, const int kind)
   if (is_hessian(kind) && x.tof)
     {
       stats().count("excluded request: Hessian with TOF data (L5)");
+      return true;
+    }
+  if (kind == SENS_S && x.sens_subsets_mismatch && x.use_subset_sens)
+    {
+      stats().count("excluded request: subset sensitivity, TOF data + non-TOF sensitivity projector with other subsets (F5)");
+      return true;
+    }
+  if (base_kind(kind) == SENS_S && x.tof && x.tofsens_eff && x.zero_ends && x.norm_kind == 0)
+    {
+      stats().count("excluded request: TOF sensitivity with zero_seg0_end_planes and trivial normalisation (F6)");
       return true;
     }
   if (is_hessian(kind) && x.zero_ends)
@@ -1075,7 +1145,8 @@ run_sequence(const Ctx& x, RefCache& rc, const OpList& l, const int mem_fill, co
         stats().maxi("rel err (gradient+sensitivity) - gradient vs sensitivity", d / std::max(sc, 1e-30));
         VF_CHECK(d <= TOL_REF * sc + 1e-30, who, ": (gradient+sensitivity) - gradient differs from the sensitivity of subset ", S, " by ", d, " (magnitude ",
                  sc, ")");
-        if (x.use_subset_sens || x.N == 1)
+        const bool f6 = x.tof && x.tofsens_eff && x.zero_ends && x.norm_kind == 0 && !no_exclude();
+        if ((x.use_subset_sens || x.N == 1) && !f6)
           {
             const std::vector<double> lib = x.P.image_to_vec(o.get_subset_sensitivity(S));
             const double d2 = max_abs_diff(diff, lib);
@@ -1122,6 +1193,8 @@ check(const json& c)
     {
       return Result::reject(std::string("construction rejected: ") + e.what());
     }
+  VF_CHECK(x.unowned.empty(), "find_basic_vs_nums_in_subset + related view/segments leave ", x.unowned, " out of every one of the ", x.N,
+           " subsets although |segment| <= max_segment_num_to_process=", x.ms);
   struct DirGuard
   {
     std::string d;
@@ -1383,6 +1456,11 @@ gen_config(Src& s, int size, int force_tof /* -1 free, 0 no, 1 yes */)
   c["max_seg"] = s.chance(2, 3) ? -1 : int(s.range(0, std::max(0, pdi->get_max_segment_num())));
   c["use_subset_sens"] = s.chance(2, 3);
   c["use_tofsens"] = tof && s.chance(1, 2);
+  // fully mashed TOF data (one TOF bin, tof_mash_factor > 0) with norm data of the same kind: is_TOF_only_norm()
+  // (num_tof_poss > 1) is false, so set_up error()s with 'Set_up of norm with non-TOF data failed. If your norm is TOF,
+  // set "use time-of-flight sensitivities" to true' -- do what the message says
+  if (tof && pdi->get_num_tof_poss() == 1 && c["norm"].get<int>() > 0 && c["norm_tof"].get<bool>())
+    c["use_tofsens"] = true;
   c["prior"] = s.chance(1, 3) ? 1 : 0;
   c["beta"] = s.pick(std::vector<double>{ 0.1, 1., 10. });
   c["image_seed"] = s.seed64();
@@ -1450,9 +1528,6 @@ json
 gen(Src& s, int size)
 {
   json c = gen_config(s, size, forced().value("force_tof", -1));
-  for (auto it = forced().begin(); it != forced().end(); ++it)
-    if (it.key() != "force_tof")
-      c[it.key()] = it.value();
   // ops: a random order of first use of the six kinds of request, then further requests (also all-subsets forms)
   std::vector<int> kinds = { 0, 1, 2, 3, 4, 5 };
   json ops = json::array();
@@ -1471,6 +1546,9 @@ gen(Src& s, int size)
   for (int i = 0; i < extra; ++i)
     ops.push_back(json::array({ int(s.range(0, NUM_KINDS - 1)), int(s.range(0, 63)) }));
   c["ops"] = ops;
+  for (auto it = forced().begin(); it != forced().end(); ++it)
+    if (it.key() != "force_tof")
+      c[it.key()] = it.value();
   return c;
 }
 
